@@ -377,7 +377,38 @@ def check_blend(ctx, rep):
             rep.violation("QB", x, f, "blended element is %s" % pretty(e)[:90], "normal form %s differs from (1-b)*v1 + b*v2" % p,
                           key="blendPlacement|wrong formula")
     if not pushes:
-        rep.unknown("QB", f.decl, f, "blend formula", "no element push found")
+        # std::transform(v1.begin(), v1.end(), v2.begin(), out, [..](a, b) { return expr; })
+        done = False
+        for x in walk(f.body):
+            if x.get("kind") != "CallExpr":
+                continue
+            ci = callee_info(x)
+            if not ci or ci["name"] != "transform" or len(ci["args"]) != 5:
+                continue
+            a0, a2 = canon(ci["args"][0]), canon(ci["args"][2])
+            lam = next((y for y in walk(ci["args"][4]) if y.get("kind") == "LambdaExpr"), None)
+            if lam is None or not (a0[0] == "call" and a0[1] in ("begin", "cbegin") and a2[0] == "call" and a2[1] in ("begin", "cbegin")):
+                continue
+            lf = lam.get("_lam")
+            lps = list(lf.params) if lf is not None else []
+            rets = [y for y in walk(lf.body) if y.get("kind") == "ReturnStmt" and children(y)] if lf is not None else []
+            if len(lps) != 2 or len(rets) != 1:
+                continue
+            first, second = a0[2], a2[2]
+            role = {lps[0].get("id"): "v1" if first == v1 else ("v2" if first == v2 else None),
+                    lps[1].get("id"): "v1" if second == v1 else ("v2" if second == v2 else None)}
+            e = canon(children(rets[0])[0])
+            atoms = {"b": lambda c: (c[0] == "var" and c[2] == b[2]) or c == b,
+                     "v1": lambda c: c[0] == "var" and role.get(c[1]) == "v1", "v2": lambda c: c[0] == "var" and role.get(c[1]) == "v2"}
+            pp = poly(e, atoms)
+            done = True
+            if pp == {("v1",): 1.0, ("b", "v1"): -1.0, ("b", "v2"): 1.0} and set(role.values()) == {"v1", "v2"}:
+                rep.holds("QB", x, f, "element-wise transform with (1-b)*a + b*c over (v1, v2)", "polynomial normal form matches")
+            else:
+                rep.violation("QB", x, f, "blended element is %s" % pretty(e)[:90], "normal form %s over %s differs from (1-b)*v1 + b*v2" % (pp, sorted(map(str, role.values()))),
+                              key="blendPlacement|wrong formula")
+        if not done:
+            rep.unknown("QB", f.decl, f, "blend formula", "no element push / element-wise transform found")
     # shortcuts
     for x in walk(f.body):
         if x.get("kind") != "ReturnStmt" or not children(x):
